@@ -274,6 +274,38 @@ def run_case(case, ctx):
                           f"and returned {gen.dec(r4)!r} instead of x*y = {want!r}",
                           tags={"fn": "scalar_mult", "out": "partial-overlap", "call": "scalar_mult", "alias": "partial"},
                           witness={"x": a.tolist(), "y": b.tolist()})
+        # an out buffer with gaps (every third element of a table) whose imaginary half lies over an operand that starts
+        # beyond the buffer's first numel elements: still the operand's memory
+        if len(shp) <= 1:
+            n_ = int(np.prod(shp)) if shp else 1
+            flat = torch.zeros(6 * n_, dtype=torch.double)
+            gout = flat[0::3] if not shp else flat.view(2, 3 * n_)[:, ::3]
+            xs = flat[3 * n_:5 * n_].view((2,) + shp)
+            xs.copy_(a)
+            err = None
+            try:
+                r5 = cplx.scalar_mult(xs, b, out=gout)
+            except Exception as e:  # noqa: BLE001
+                err = e
+            ctx.count("aliasing_view_out_buffers_tried")
+            if err is not None:
+                ctx.count("rejections_observed")
+                if not torch.equal(xs, a):
+                    ctx.violation("aliased-out-written", "scalar_mult(out=<gapped buffer over x>) was rejected after overwriting the operand",
+                                  tags={"fn": "scalar_mult", "out": "gapped-overlap"})
+            elif np.abs(gen.dec(r5) - want).max() > 1e-13 * (1 + np.abs(want).max()):
+                ctx.violation("aliasing-out-wrong-value", f"scalar_mult(x, y, out=<strided buffer whose imaginary half lies over x>) raised nothing and "
+                              f"returned {gen.dec(r5)!r} instead of x*y = {want!r}",
+                              tags={"fn": "scalar_mult", "out": "gapped-overlap", "call": "scalar_mult", "alias": "gapped"},
+                              witness={"x": a.tolist(), "y": b.tolist()})
+        # the library's own imaginary unit as an operand together with out=: the buffer is written and returned
+        bufI = torch.full((2,) + shp, 7.0, dtype=torch.double)
+        rI = ctx.lib("scalar_mult(x, I, out=fresh)", cplx.scalar_mult, a, cplx.I, out=bufI, tags={"fn": "scalar_mult", "operand": "I"})
+        wantI = gen.dec(a) * 1j
+        if rI is not bufI or np.abs(gen.dec(bufI) - wantI).max() > 1e-13 * (1 + np.abs(wantI).max()):
+            ctx.violation("out-not-written", f"scalar_mult(x, cplx.I, out=buf): returned buf: {rI is bufI}; buf holds {gen.dec(bufI)!r}, x*i = {wantI!r}",
+                          tags={"fn": "scalar_mult", "operand": "I"})
+        ctx.count("out_buffer_checks")
         # a buffer in the same allocation that does not overlap either operand is an ordinary buffer
         big = torch.full((3, 2) + shp, 7.0, dtype=torch.double)
         big[0], big[2] = a, b
